@@ -984,8 +984,32 @@ func runC11(c *Ctx) {
 		ob := c.Obl("R2b", "udp.receive-buffers", "every read path receives into buffers of the same constant size, the largest byte-slice size constant of the package's read paths (the receive MTU): batch and plain mode deliver the same datagrams unabridged", 1)
 		sizes := map[*ssa.Function][]int64{}
 		var all []int64
+		// a reader that only dispatches (the per-batch loop extracted into a helper) receives into the buffers
+		// its static callers allocate: those callers are scanned on its behalf
+		type scanPair struct{ key, scan *ssa.Function }
+		var pairs []scanPair
 		for _, rd := range r.readers {
+			pairs = append(pairs, scanPair{rd, rd})
+		}
+		for _, rd := range r.readers {
+			allocs := false
 			instrsOfU(rd, func(in ssa.Instruction) {
+				if _, ok := in.(*ssa.MakeSlice); ok {
+					allocs = true
+				}
+			})
+			if allocs {
+				continue
+			}
+			for _, e := range p.CG().In[rd] {
+				if e.Kind == "static" && e.From != rd && e.From != r.readLoop && inModule(e.From) {
+					pairs = append(pairs, scanPair{rd, e.From})
+				}
+			}
+		}
+		for _, sp := range pairs {
+			rd := sp.key
+			instrsOfU(sp.scan, func(in ssa.Instruction) {
 				var k int64
 				switch mk := in.(type) {
 				case *ssa.MakeSlice:
